@@ -16,12 +16,28 @@ BASE = json.load(open("/root/.vp/BASELINE.json"))
 
 
 def baseline_on(copy):
-    junit = os.path.join(copy, "junit.xml")
-    cmd = f"cd {copy} && /venv/bin/python -m pytest -ra -q -p no:cacheprovider --timeout=900 --continue-on-collection-errors --junitxml={junit}"
+    """-> (set of failed/errored test ids, summary line).  The scratch copy has no .git, so a few dev_tools tests fail there
+    regardless of any patch: the comparison is against the same run on an UNPATCHED scratch copy."""
+    cmd = f"cd {copy} && /venv/bin/python -m pytest -ra -q -p no:cacheprovider --timeout=900 --continue-on-collection-errors"
     r = subprocess.run(cmd, shell=True, capture_output=True, text=True)
-    tail = r.stdout.strip().splitlines()[-1] if r.stdout.strip() else ""
-    m = re.search(r"(\d+) passed", tail)
-    return int(m.group(1)) if m else -1, tail
+    lines = r.stdout.strip().splitlines()
+    tail = lines[-1] if lines else ""
+    bad = {l.split(" - ")[0].strip() for l in lines if l.startswith(("FAILED ", "ERROR "))}
+    return bad, tail
+
+
+_CLEAN = {}
+
+
+def clean_reference():
+    if not _CLEAN:
+        copy = tempfile.mkdtemp(prefix="vfseed.")
+        try:
+            subprocess.check_call(["rsync", "-a", "--exclude", ".git", "--exclude", "__pycache__", "/repo/", copy + "/"])
+            _CLEAN["bad"], _CLEAN["tail"] = baseline_on(copy)
+        finally:
+            shutil.rmtree(copy, ignore_errors=True)
+    return _CLEAN["bad"], _CLEAN["tail"]
 
 
 def main():
@@ -38,6 +54,8 @@ def main():
                 continue
             files = re.findall(r"^\+\+\+ b/(\S+)", open(patch).read(), re.M)
             visible = [f for f in files if not f.startswith("cirq-core/")]
+            if os.environ.get("ONLY_VISIBLE") and not visible:
+                continue
             res = {"files": files}
             copy = tempfile.mkdtemp(prefix="vfseed.")
             try:
@@ -48,10 +66,12 @@ def main():
                 res["demo_exit_clean"] = subprocess.run(["/venv/bin/python", demo], env=dict(os.environ, CIRQ_ROOT="/repo"), capture_output=True).returncode
                 res["demo_exit_patched"] = subprocess.run(["/venv/bin/python", demo], env=dict(os.environ, CIRQ_ROOT=copy), capture_output=True).returncode
                 if visible and ap.returncode == 0:
-                    n, tail = baseline_on(copy)
+                    ref_bad, ref_tail = clean_reference()
+                    bad, tail = baseline_on(copy)
                     res["baseline_with_patch"] = tail
-                    res["baseline_passed_count"] = n
-                    res["baseline_ok"] = n >= len(BASE["stable_pass"])
+                    res["baseline_same_copy_without_patch"] = ref_tail
+                    res["new_failures_with_patch"] = sorted(x.replace(copy, "<copy>") for x in bad - ref_bad)
+                    res["baseline_ok"] = not (bad - ref_bad)
                 else:
                     res["baseline_with_patch"] = "patch touches only cirq-core: the pinned baseline imports cirq core from site-packages and cannot observe it (core tests of the touched modules were run by the author, see tests_run)"
                     res["baseline_ok"] = True
